@@ -36,6 +36,25 @@ fn gen_values(rng: &mut SplitMix64) -> (f64, f64, f64, f64, f64) {
     (start, end, min, max, tol)
 }
 
+fn next_up(x: f64) -> f64 {
+    f64::from_bits(x.to_bits() + 1)
+}
+
+/// Valid values at the edges of their class: magnitudes far from 1, neighbours in the float
+/// grid, times far from zero. Used for builder chains that are not iterated.
+fn edge_positive(rng: &mut SplitMix64) -> f64 {
+    match rng.below(8) {
+        0 => f64::MIN_POSITIVE,
+        1 => 5e-324,
+        2 => rng.log_uniform(1e-300, 1e-17),
+        3 => rng.log_uniform(1e6, 1e300),
+        4 => 1.0,
+        5 => next_up(1.0),
+        6 => f64::EPSILON * rng.log_uniform(0.1, 10.0),
+        _ => rng.log_uniform(1e-12, 1e3),
+    }
+}
+
 fn bad_value(rng: &mut SplitMix64) -> f64 {
     match rng.below(4) {
         0 => 0.0,
@@ -104,12 +123,22 @@ fn gen_instance(rng: &mut SplitMix64) -> InstSpec {
         let len = rng.range(1, 12);
         for _ in 0..len {
             let bad = rng.chance(0.2);
+            let edge = rng.chance(0.3);
+            let time = |rng: &mut SplitMix64| -> f64 {
+                match rng.below(6) {
+                    0 => -1000.0,
+                    1 => next_up(-1000.0),
+                    2 => 1e12,
+                    3 => next_up(1.0),
+                    _ => (rng.below(7) as f64 - 3.0) * 0.5,
+                }
+            };
             let op = match rng.below(8) {
-                0 => BOp::Tol(if bad { bad_value(rng) } else { rng.log_uniform(1e-9, 1.0) }),
-                1 => BOp::Max(if bad { bad_value(rng) } else { rng.log_uniform(1e-6, 10.0) }),
-                2 => BOp::Min(if bad { bad_value(rng) } else { rng.log_uniform(1e-9, 10.0) }),
-                3 => BOp::Start((rng.below(7) as f64 - 3.0) * 0.5),
-                4 => BOp::End((rng.below(7) as f64 - 3.0) * 0.5),
+                0 => BOp::Tol(if bad { bad_value(rng) } else if edge { edge_positive(rng) } else { rng.log_uniform(1e-9, 1.0) }),
+                1 => BOp::Max(if bad { bad_value(rng) } else if edge { edge_positive(rng) } else { rng.log_uniform(1e-6, 10.0) }),
+                2 => BOp::Min(if bad { bad_value(rng) } else if edge { edge_positive(rng) } else { rng.log_uniform(1e-9, 10.0) }),
+                3 => BOp::Start(time(rng)),
+                4 => BOp::End(time(rng)),
                 5 => BOp::IcSlice,
                 6 => BOp::IcVec,
                 _ => BOp::Deriv,
@@ -124,6 +153,7 @@ fn gen_instance(rng: &mut SplitMix64) -> InstSpec {
         kind,
         dim,
         field,
+        data: if rng.chance(0.4) { DataMode::Counter } else { DataMode::Unit },
         ops,
         problem: *rng.pick(&PROBLEMS),
         y0: *rng.pick(&[1.0, 0.25, 2.0, 0.0]),
@@ -133,7 +163,9 @@ fn gen_instance(rng: &mut SplitMix64) -> InstSpec {
             0 | 1 => Drive::Poll,
             2 => Drive::CollectVec,
             3 => Drive::ByRefCollect,
-            4 => match rng.below(7) {
+            4 => match rng.below(9) {
+                7 => Drive::PollThenCount,
+                8 => Drive::PollThenLast,
                 0 => Drive::Nth0,
                 1 => Drive::Fold,
                 2 => Drive::PollThenCollect,
